@@ -91,12 +91,17 @@ def values_for(name):
     if typ == "DATE-TIME" and name in RP.UTC_ONLY:
         v = [("utc", lambda: datetime(2024, 3, 1, 8, 30, 5, tzinfo=UTC)), ("early-utc", lambda: datetime(999, 1, 2, 3, 4, 5, tzinfo=UTC))]
         if name != "COMPLETED":
-            v += [("naive-as-utc", lambda: datetime(2024, 3, 1, 8, 30, 5)), ("zoned-to-utc", lambda: zoned(ZA, 2024, 3, 1, 9, 30, 5))]
+            v += [("naive-as-utc", lambda: datetime(2024, 3, 1, 8, 30, 5)), ("zoned-to-utc", lambda: zoned(ZA, 2024, 3, 1, 9, 30, 5)),
+                  # zones that are NOT UTC but are at offset zero at that moment: still converted, still written with Z
+                  ("zero-offset-zone-to-utc", lambda: zoned("Europe/London", 2024, 1, 15, 10, 30, 0)),
+                  ("zero-offset-zone2-to-utc", lambda: zoned("Africa/Abidjan", 2024, 7, 1, 12, 0, 0)),
+                  ("zero-offset-other-lib-to-utc", lambda: zoned_other("Europe/Lisbon", 2024, 1, 15, 10, 30, 0)),
+                  ("zero-offset-dateutil-to-utc", lambda: zoned_dateutil("Europe/London", 2024, 1, 15, 10, 30, 0))]
         return v
     if typ == "DATE-TIME" and not is_list:
         return [("date", lambda: date(2024, 3, 1)), ("naive", lambda: datetime(2024, 3, 1, 8, 30)),
                 ("utc", lambda: datetime(2024, 3, 1, 8, 30, tzinfo=UTC)), ("zoned", lambda: zoned(ZA, 2024, 3, 31, 3, 30)),
-                ("zoned-b", lambda: zoned(ZB, 2024, 11, 3, 1, 30)),
+                ("zoned-b", lambda: zoned(ZB, 2024, 11, 3, 1, 30)), ("zoned-zero-offset", lambda: zoned("Europe/London", 2024, 1, 15, 10, 30)),
                 # tzinfo objects of the other two implementations (dateutil; the provider that is not active)
                 ("zoned-dateutil", lambda: zoned_dateutil(ZA, 2024, 3, 31, 3, 30)), ("zoned-other-lib", lambda: zoned_other(ZB, 2024, 11, 3, 3, 30)),
                 # the ends of the value domain: years that need zero padding, the last representable second
@@ -605,7 +610,7 @@ def run(ctx):
                             if pi and name in ("TZID",):
                                 continue
                             yield ("prop", provider, "add", cname, name, vlabel, pi)
-                            if pi in (0, 1) and vlabel not in ("naive-as-utc", "zoned-to-utc"):
+                            if pi in (0, 1) and not vlabel.endswith(("-as-utc", "-to-utc")):
                                 yield ("prop", provider, "setitem", cname, name, vlabel, pi)
                         if (cname, name) in SETTERS and vlabel not in ("date",) :
                             if name in ("TZOFFSETFROM", "TZOFFSETTO", "REPEAT", "DURATION") or vlabel != "date":
